@@ -258,6 +258,13 @@ impl WireMon {
         self.put_count[x] += 1;
 
         if self.mode == Mode::HostilePeer && x == 1 {
+            // only the handshake of the harness peer is tracked (so that W8/W9 can be judged for the real endpoint)
+            if let Ok(Msg::Hello { version, .. }) = refcodec::decode(bytes) {
+                if self.hello_version[1].is_none() {
+                    self.hello_version[1] = Some(version);
+                    self.set_act(seq, Act::Hello { from: 1 });
+                }
+            }
             return;
         }
 
